@@ -169,7 +169,8 @@ def run_case(case):
         return ("pretty-compact-differ", str(_first_diff(parsed[True], parsed[False])))
     d = _first_diff(_norm(want), _norm(parsed[True]))
     if d:
-        return ("document-vs-data:" + d.split(":")[0].split("[")[1].strip("'\"]") if "[" in d else "document-vs-data", f"expected vs written: {d}")
+        m = re.match(r"\$\['?(\w+)", d)
+        return ("document-vs-data" + (":" + m.group(1) if m else ""), f"expected vs written: {d}")
     # key order of files is part of the statement ("files in the same order")
     if list(parsed[True]["codebase"]["files"]) != [f["path"] for f in case["codebase"]["files"]]:
         return ("document-file-order", "files are not written in codebase order")
